@@ -1,5 +1,5 @@
 """Step a scenario with adversarial extra traffic / requests and check the observation after every reset and step."""
-import copy
+import copy, random
 import numpy as np
 from lib import world, obstruth
 
@@ -47,6 +47,18 @@ def extra_requests(game, rng, inv):
     hosts = [n for n, d in inv.items() if d["kind"] in world.HOSTS]
     if not hosts:
         return reqs
+    # remote sessions: one client logging in to one server twice in a tick (two sessions from the same address), now and then a
+    # log-off; drawn from a generator of its own so that the other choices stay what they were
+    r2 = random.Random(game.step_counter * 7919 + len(inv) * 104729 + len(hosts))
+    if len(hosts) >= 2 and r2.random() < 0.3:
+        nodes = {n.config.hostname: n for n in game.simulation.network.nodes.values()}
+        c, sv = r2.sample(sorted(hosts), 2)
+        try:
+            ip = str(nodes[sv].network_interface[1].ip_address)
+            login = ["network", "node", c, "service", "terminal", "node_session_remote_login", "admin", "admin", ip]
+            reqs += [login] * r2.choice([1, 2, 2, 4]) if r2.random() < 0.8 else [["network", "node", c, "service", "terminal", "remote_logoff", ip]]
+        except Exception:
+            pass
     h = rng.choice(hosts)
     k = rng.choice([0, 0, 1, 2, 5, 7])
     for i in range(k):
